@@ -138,6 +138,29 @@ def _zero_test(test, var):
     return 0
 
 
+_MUTATORS = {"add", "update", "append", "extend", "insert", "pop", "remove", "clear", "discard", "setdefault", "popitem", "sort", "reverse",
+             "difference_update", "intersection_update", "symmetric_difference_update"}
+
+
+def _mutable_object(d):
+    if isinstance(d, (ast.List, ast.Dict, ast.Set, ast.ListComp, ast.DictComp, ast.SetComp)):
+        return True
+    return isinstance(d, ast.Call) and isinstance(d.func, ast.Name) and d.func.id in ("set", "dict", "list", "OrderedDict", "defaultdict", "bytearray")
+
+
+def _mutated_in_place(n):
+    """the expressions statement/call `n` updates in place (not rebinds)"""
+    if isinstance(n, ast.AugAssign) and isinstance(n.target, (ast.Name, ast.Attribute)):
+        return [n.target]
+    if isinstance(n, ast.AugAssign) and isinstance(n.target, ast.Subscript):
+        return [n.target.value]
+    if isinstance(n, ast.Call) and isinstance(n.func, ast.Attribute) and n.func.attr in _MUTATORS:
+        return [n.func.value]
+    if isinstance(n, (ast.Assign, ast.Delete)):
+        return [t.value for t in n.targets if isinstance(t, ast.Subscript)]
+    return []
+
+
 def run(ctx):
     ctx.rule("C02.a", "gate never repeats: for a signal named for the first time the returned string was tested absent from "
                       "the registry, is inserted with a non-zero count on the same path; plain iff count == 0; memoised per "
@@ -604,6 +627,56 @@ def run(ctx):
                         badn = n
         ctx.ob("C02.e", rel, "<module>", "no id()/hash()/random/environ", badn is None,
                "" if badn is None else f"`{norm(badn)}` introduces run-dependent data into the naming/emission code", badn or m.tree)
+    # ... and nothing survives from one conversion to the next in the same process: a parameter whose default is a mutable object
+    # (convert's ios=set(), special_overrides=dict(), the namer's reserved_keywords=set()) is the SAME object in every call, so an
+    # in-place update of it (|=, .add/.update, p[k] = ..) -- directly, through a local alias or through self.<attr> = p -- makes the
+    # second netlist of a run depend on the first; likewise for module-level containers updated from inside functions
+    n_def = 0
+    for rel in (VER, MEM, INS, EXP, NAMER):
+        m = ctx.mod(rel)
+        modlevel = set()
+        for s in m.tree.body:
+            if isinstance(s, ast.Assign) and _mutable_object(s.value):
+                modlevel |= {t.id for t in s.targets if isinstance(t, ast.Name)}
+        for cls in [None] + [c for c in m.tree.body if isinstance(c, ast.ClassDef)]:
+            funcs = [f for f in (m.tree.body if cls is None else cls.body) if isinstance(f, ast.FunctionDef)]
+            self_alias = {}
+            for f in funcs:
+                a = f.args
+                pos = a.posonlyargs + a.args
+                defs = dict(zip([x.arg for x in pos[len(pos) - len(a.defaults):]], a.defaults))
+                defs.update({x.arg: d for x, d in zip(a.kwonlyargs, a.kw_defaults) if d is not None})
+                shared = {k: k for k, d in defs.items() if _mutable_object(d)}
+                n_def += len(shared)
+                params = {x.arg for x in pos + a.kwonlyargs}
+                for n in ast.walk(f):
+                    if isinstance(n, ast.Assign) and isinstance(n.value, ast.Name) and n.value.id in shared:
+                        for t in n.targets:
+                            if isinstance(t, ast.Name) and t.id not in shared:
+                                shared[t.id] = shared[n.value.id]
+                            elif isinstance(t, ast.Attribute) and norm(t).startswith("self."):
+                                self_alias[norm(t)] = (f.name, shared[n.value.id])
+                bad = None
+                for n in ast.walk(f):
+                    for tgt in _mutated_in_place(n):
+                        t = norm(tgt)
+                        if t in shared:
+                            bad = bad or (n, f"`{norm(n)[:80]}` updates in place the object bound to parameter `{shared[t]}`, whose default "
+                                             f"is one shared mutable object: the next conversion in the same process starts from what this one left")
+                        elif t in modlevel and t not in params:
+                            bad = bad or (n, f"`{norm(n)[:80]}` updates the module-level container `{t}` from inside a function: state "
+                                             f"carried from one conversion to the next")
+                scope = f.name if cls is None else f"{cls.name}.{f.name}"
+                if shared or bad:
+                    ctx.ob("C02.e", rel, scope, "no conversion-to-conversion state: shared default objects / module containers never updated in place",
+                           bad is None, "" if bad is None else bad[1], bad[0] if bad else f)
+            for f in funcs:
+                for n in ast.walk(f):
+                    for tgt in _mutated_in_place(n):
+                        if norm(tgt) in self_alias:
+                            src = self_alias[norm(tgt)]
+                            ctx.ob("C02.e", rel, f"{cls.name}.{f.name}", "no conversion-to-conversion state: shared default objects / module containers never updated in place",
+                                   False, f"`{norm(n)[:80]}` updates `{norm(tgt)}`, which {src[0]} binds to the shared default object of parameter `{src[1]}`", n)
     tm = {}
     for fname, f in vm.functions.items():
         for n in ast.walk(f):
